@@ -10,7 +10,7 @@ NOTES = (
     "never a violation. Genuine defects recorded rather than repaired are in known_findings.json. Rules are phrased over a normalised "
     "view of each function (conditional expressions / match / walrus / tuple assignment normalised, private and newly extracted helpers "
     "inlined) with control-dependence, reaching-definition and value-flow queries - never over source fragments; the thorough tier replays "
-    "mutants, 123 seeded property-breaking changes, four whole-package behaviour-preserving twins and 540 neutral refactorings (DESIGN.md section 6). "
+    "mutants, 131 seeded property-breaking changes, four whole-package behaviour-preserving twins and 580 neutral refactorings (DESIGN.md section 6). "
     "Where a rule cannot recognise the form of a condition or argument list it abstains (recorded in the evidence notes), it does not alarm."
 )
 
